@@ -169,12 +169,18 @@ Definition goal_ops : list str :=
   [[61;61]; [33;61]; [62;61]; [60;61]; [62]; [60];
    [32;99;111;110;116;97;105;110;115;32]; [32;109;97;116;99;104;101;115;32]].
 
-Fixpoint extract_field_ops (ops : list str) (g : str) : str :=
+(** after the repair "fix: the conclusion index takes the field before the FIRST operator of the goal": the smallest position of
+    any operator of the list (before: the first operator of the LIST that occurs anywhere, e.g. the == inside a string literal) *)
+Fixpoint first_op_pos (ops : list str) (g : str) (best : option nat) : option nat :=
   match ops with
-  | [] => trim g
-  | op :: r => match find_str g op with Some p => trim (firstn p g) | None => extract_field_ops r g end
+  | [] => best
+  | op :: r => first_op_pos r g (match find_str g op, best with
+                                 | Some p, Some b => if Nat.ltb p b then Some p else best
+                                 | Some p, None => Some p
+                                 | None, _ => best end)
   end.
-Definition extract_field (g : str) : str := extract_field_ops goal_ops g.
+Definition extract_field (g : str) : str :=
+  match first_op_pos goal_ops g None with Some p => trim (firstn p g) | None => trim g end.
 
 Fixpoint rfind_dot (s : str) (pos : nat) (last : option nat) : option nat :=
   match s with [] => last | c :: r => rfind_dot r (S pos) (if c =? 46 then Some pos else last) end.
@@ -347,9 +353,11 @@ Fixpoint ok_cidx (present : list (str * list str)) (ops : list cop2) (os : list 
       ok_cidx (if b then match dedup fs with [] => present
                          | _ => (n, fs) :: filter (fun e => negb (str_eqb (fst e) n)) present end else present) r orr
   | C2 (CRemove n) :: r, _ :: orr => ok_cidx (filter (fun e => negb (str_eqb (fst e) n)) present) r orr
-  | CFind2 fld _ :: r, L names :: orr =>
+  | CFind2 fld g :: r, L names :: orr =>
       match mapO dec_str names with
-      | Some names => forallb (fun e => if mem_str fld (snd e) then mem_str (fst e) names else true) present
+      | Some names => (* the goal text is the field followed by an operator and a literal: only then is [fld] the goal's field *)
+                      (if starts_with g fld && match fld with [] => false | _ => true end
+                       then forallb (fun e => if mem_str fld (snd e) then mem_str (fst e) names else true) present else true)
                       && ok_cidx present r orr
       | None => false end
   | C2 (CFind _) :: r, _ :: orr => ok_cidx present r orr
